@@ -33,7 +33,7 @@ ASSUMPTIONS = ['only acknowledged saves (the call returned) carry obligations; a
                'values are restricted to what YAML can carry: python scalars, None, lists, tuples, 1-D arrays']
 
 VARIANTS = ['sift', 'mask_sift', 'ensemble_sift', 'complete_ensemble_sift']
-PATH = '/sim/conf/config.yml'
+PATH = 'config.yml'      # relative to the run's scratch directory (the process chdir()s there)
 
 
 def norm(v):
@@ -237,17 +237,29 @@ def scenario(w):
         except Exception as e:
             m_exc = e
         c_exc = None
+        # the documented alternative to a key path: chained indexing on the configuration object itself
+        chained = 2 <= len(parts) <= 3 and ch.flag('edit.chained', 1, 3)
         try:
-            if kind == 'set':
+            if chained:
+                tgt = conf[parts[0]] if len(parts) == 2 else conf[parts[0]][parts[1]]
+                if kind == 'set':
+                    tgt[parts[-1]] = value
+                elif kind == 'del':
+                    del tgt[parts[-1]]
+                else:
+                    got = tgt[parts[-1]]
+            elif kind == 'set':
                 conf[path] = value
             elif kind == 'del':
                 del conf[path]
             else:
                 got = conf[path]
         except Exception as e:
-            C.reraise_if_harness(e)
+            if not chained:          # with chained indexing the raising frame is this one, by construction
+                C.reraise_if_harness(e)
             c_exc = e
-        hist.append('%s(%s%s)%s' % (kind, path, '=' + vkind if vkind else '', ' -> ' + type(c_exc).__name__ if c_exc else ''))
+        hist.append('%s%s(%s%s)%s' % (kind, '[chained]' if chained else '', path, '=' + vkind if vkind else '',
+                                      ' -> ' + type(c_exc).__name__ if c_exc else ''))
         w.log('op', op=kind, path=path, vkind=vkind, raised=type(c_exc).__name__ if c_exc else None)
         if (m_exc is None) != (c_exc is None):
             w.violation('keypath', tag + ':raise-mismatch',
@@ -313,6 +325,24 @@ def scenario(w):
                                 e, ' (a disk fault fired during that save)' if fired_save else ''))
                 return False
         nobs[0] += 1
+        if route == 'file' and isinstance(loaded.store, dict) and ch.flag('edit_loaded_and_reload', 1, 3):
+            # the loaded object is edited; reading the unchanged file again must still give what was saved
+            try:
+                for g in ('imf_opts', 'extrema_opts', 'envelope_opts'):
+                    if isinstance(loaded.store.get(g), dict):
+                        loaded.store[g]['edited_after_load'] = 123
+                        for k2 in list(loaded.store[g]):
+                            if isinstance(loaded.store[g][k2], (int, float)) and not isinstance(loaded.store[g][k2], bool):
+                                loaded.store[g][k2] = 0.777
+                loaded['sift_thresh'] = 0.5
+            except Exception as e:
+                C.reraise_if_harness(e)
+            again, e = call(lambda: S.SiftConfig.from_yaml_file(PATH))
+            hist.append('edit-loaded+reload')
+            if e is not None:
+                w.violation('yaml-roundtrip', 'file:reload-failed', 'reading an unchanged, acknowledged file a second time raised %r' % (e,))
+                return False
+            loaded = again
         if loaded.sift_type != conf.sift_type:
             w.violation('yaml-roundtrip', route + ':sift_type',
                         '%s route: sift_type %r came back as %r' % (route, conf.sift_type, loaded.sift_type))
